@@ -87,10 +87,7 @@ def run(ctx):
                   "opcode `%s` computes in floating point but its table row has neither FLOAT_SRC nor FLOAT_DEST: a program using only it runs without FTZ|DAZ" % op)
     if nfloat < 25:
         raise AnalysisBroken("only %d float-computing emulate functions found" % nfloat)
-    hf = db.func("orc_program_has_float", "orcprogram")
-    ok = any(n.k == "BinaryOperator" and n.op == "&" and strip_casts(n.c[1]).v == FLOAT for n in hf.walk())
-    rep.check(ok, "D2-FLOAT-FLAG", where(hf), "tests-FLOAT-mask", "orc_program_has_float tests flags & (FLOAT_SRC|FLOAT_DEST)",
-              "orc_program_has_float no longer tests the FLOAT flags")
+    has_float_tests_both(db, rep, "D2-FLOAT-FLAG")
     xc = db.func("orc_x86_compile", "orcprogram-x86")
     fc = Facts(xc)
     for c in xc.calls("orc_x86_set_mxcsr"):
@@ -386,4 +383,21 @@ def avx_dest_defined_before_read(db, rep, rule):
     if n < 40:
         raise AnalysisBroken("only %d AVX rule functions with destination/scratch registers found" % n)
     return n
+
+
+def has_float_tests_both(db, rep, rule):
+    """orc_program_has_float alone decides whether the x86 back ends switch MXCSR to FTZ|DAZ: it must look at BOTH float flags -
+    opcodes that only consume floats (cmpeqf/cmpltf/convfl ...) compare denormal inputs unflushed otherwise, while emulation,
+    backup code and the Orc-free build flush them (shared with C07: "in every build and run-time mode")."""
+    FLOAT = db.macro_int("ORC_STATIC_OPCODE_FLOAT_SRC") | db.macro_int("ORC_STATIC_OPCODE_FLOAT_DEST")
+    hf = db.func("orc_program_has_float", "orcprogram")
+    rep.saw(hf)
+    masks = [strip_casts(n.c[1]).v for n in hf.walk() if n.k == "BinaryOperator" and n.op == "&" and strip_casts(n.c[1]) is not None and strip_casts(n.c[1]).v is not None]
+    got = 0
+    for m in masks:
+        got |= m
+    rep.check((got & FLOAT) == FLOAT, rule, where(hf), "tests-FLOAT-mask", "orc_program_has_float tests flags & (FLOAT_SRC|FLOAT_DEST)",
+              "orc_program_has_float tests the opcode flags against %#x, which does not include both ORC_STATIC_OPCODE_FLOAT_SRC and _FLOAT_DEST (%#x): a program "
+              "whose float opcodes only consume (or only produce) floats runs its JIT code without FTZ|DAZ and treats denormals differently from "
+              "emulation, backup code and the DISABLE_ORC build" % (got, FLOAT))
 
